@@ -21,6 +21,7 @@ const ref_event * ref_trace_get(size_t i);
 void genbbsub_(int * i2bbs, char * chnuclide, int * ilevel, int * modebb, int * istart, int * ier, long len);
 extern struct { double tevst; int npfull; int npgeant[100]; double pmoment[100][3]; double ptime[100]; } genevent_;
 extern struct { double ebb1, ebb2, toallevents; int levelE; char chdspin[4]; } enrange_;
+extern struct { double chi_GTw, chi_Fw, chip_GT, chip_F, chip_T, chip_P, chip_R; } eta_nme_;
 #ifdef __cplusplus
 }
 #endif
